@@ -328,6 +328,23 @@ impl LspContext {
         Ok(())
     }
 
+    /// Answers a request that cannot be served with a JSON-RPC error (the client is not left waiting)
+    pub(crate) fn send_error(&self, id: RequestId, code: i32, message: String) -> MosResult<()> {
+        let response = lsp_server::Response {
+            id,
+            result: None,
+            error: Some(lsp_server::ResponseError {
+                code,
+                message,
+                data: None,
+            }),
+        };
+        if let Some(conn) = self.connection() {
+            conn.sender.send(Message::Response(response))?;
+        }
+        Ok(())
+    }
+
     fn join(&mut self) -> MosResult<()> {
         if let Some((connection, io_threads)) = self.connection.take() {
             // The writer thread ends when the last sender is gone
@@ -498,7 +515,8 @@ impl LspServer {
     fn main_loop(&mut self, params: serde_json::Value) -> MosResult<()> {
         let connection = self.lock_context().connection().unwrap();
 
-        let _params: InitializeParams = serde_json::from_value(params).unwrap();
+        // (nothing in the parameters is used; a client that sends something unexpected is served all the same)
+        let _params: Result<InitializeParams, _> = serde_json::from_value(params);
         for msg in &connection.receiver {
             self.handle_message(msg)?;
         }
